@@ -281,9 +281,8 @@ SendsSound(r) ==
         /\ m.kind = "GetBlockFilters" => m.start = minF' + 1
 
 \* C17: is the write `label` of operation op inside the operation's critical section (matched-blocks write lock)
-InLock(op, label) ==
-    /\ op \in {"SetScripts", "Filters", "Block", "Fork"}
-    /\ ~(op = "Fork" /\ label \in {"update_last_state:put", "update_last_state:batch"})
+\* (since fix 92f2bdb of /repo the fork switch holds the lock until the tip and the peer's prove state are updated)
+InLock(op, label) == op \in {"SetScripts", "Filters", "Block", "Fork"}
 
 \* what C17 compares: script set, filter progress, pending matched blocks, index contents, and the proof state
 Core == [scripts |-> scripts, minF |-> minF, mdb |-> mdb, mmem |-> mmem, cells |-> cells, hist |-> hist,
@@ -330,12 +329,13 @@ TraceNext ==
             /\ UNCHANGED <<world, cfg, startOf, over, subst, expPre, expOut>> /\ LoadPs(r) /\ LoadFs(r)
             /\ Core' \in expOut
             \* the lock discipline behind it: set_scripts, the BlockFilters handler and the SendBlock handler do all
-            \* their storage writes under the write lock of the matched-blocks map, the fork rollback does its
-            \* rollback writes under it (the tip update that follows is outside).  While the first operation is
+            \* their storage writes under the write lock of the matched-blocks map, the fork switch does its
+            \* rollback writes and the tip update under it.  While the first operation is
             \* suspended before a write inside its critical section, a second operation that needs the lock cannot
             \* finish.  (blocked = "did not finish within 300 ms while the first was suspended": a slow machine can
             \* only turn FALSE into TRUE, never the reverse.)
-            /\ ("label" \in DOMAIN r.a /\ r.a.paused /\ InLock(r.a.a, r.a.label) /\ r.a.b \in {"SetScripts", "Filters", "Block"})
+            /\ ("label" \in DOMAIN r.a /\ r.a.paused /\ InLock(r.a.a, r.a.label) /\ r.a.b \in {"SetScripts", "Filters", "FiltersNow", "Block"}
+                /\ ~("bNoop" \in DOMAIN r.a /\ r.a.bNoop))      \* (the second operation had nothing to deliver)
                   => r.a.blocked
             \* a reader that took its snapshot before the writer ran reports the index AND the tip of that moment
             /\ r.a.a = "Read" =>
